@@ -1138,7 +1138,10 @@ package stack
 //@ func (*Args).String
 //@   requires a != nil
 //@   modifies nothing
-//@   loop 0: invariant -1 <= rangeindex && fresh(v)
+//@   gvar it [int]string
+//@   update after-call String#1: it[rangeindex] := ret0
+//@   assert after-call strings.Join#1: [argumentsJoinedWithCommaAndEllipsisWhenElided C16] arg1 == ", " && len(arg0) == (len(a.Processed) != 0 ? len(a.Processed) : len(a.Values)) + (a.Elided ? 1 : 0) && (a.Elided ==> arg0[len(arg0) - 1] == "...")
+//@   loop 0: invariant -1 <= rangeindex && rangeindex < len(a.Values) && fresh(v) && len(v) == rangeindex + 1 && len(a.Processed) == 0 && (forall k :: 0 <= k && k <= rangeindex ==> v[k] == it[k])
 //@   loop 0: decreases len(a.Values) - rangeindex
 //@ func (*Func).String
 //@   requires f != nil
